@@ -322,8 +322,8 @@ pub struct Evidence {
 }
 
 impl Evidence {
-    pub fn write(&self) {
-        let j = Json::obj()
+    pub fn to_json(&self) -> Json {
+        Json::obj()
             .with("property_id", Json::s(self.property_id.clone()))
             .with("tier", Json::s(self.tier.clone()))
             .with("seed", Json::u(self.seed))
@@ -331,10 +331,19 @@ impl Evidence {
             .with("coverage", self.coverage.clone())
             .with("assumptions", Json::arr_of_str(self.assumptions.iter().cloned()))
             .with("wall_s", Json::Float((self.wall_s * 1000.0).round() / 1000.0))
-            .with("violations", Json::u(self.violations));
+            .with("violations", Json::u(self.violations))
+    }
+
+    pub fn write(&self) {
+        write_evidence_json(&self.property_id, &self.to_json());
+    }
+}
+
+pub fn write_evidence_json(property_id: &str, j: &Json) {
+    {
         let dir = PathBuf::from(VERIF_ROOT).join("evidence");
         let _ = fs::create_dir_all(&dir);
-        let path = dir.join(format!("{}.json", self.property_id));
+        let path = dir.join(format!("{}.json", property_id));
         fs::write(&path, j.to_pretty())
             .unwrap_or_else(|e| harness_error(&format!("cannot write evidence: {}", e)));
     }
